@@ -119,7 +119,7 @@ bitflags! {
         /// Disable all "extra" lights
         const EXTRA_OFF = Self::SET_EXTRA.bits();
         /// Enable all "extra" lights
-        const EXTRA = Self::SET_EXTRA.bits() | (1 << 2);
+        const EXTRA = Self::SET_EXTRA.bits() | (1 << 22);
     }
 }
 
